@@ -129,10 +129,19 @@ fn run_k<const K: usize>(sc: &Value, id: usize, out: Out) {
         "compose" => {
             let r = rhs.clone().unwrap();
             emit("", guarded(|| { let mut t = lhs.clone(); t.compose::<false, false>(&r); (t, Some(r)) }));
+            // the VERBOSE variant of the same composition (progress reporting only: the tree must be the same), on a sample
+            if id % 4 == 0 {
+                let r = rhs.clone().unwrap();
+                emit("v", guarded(|| { let mut t = lhs.clone(); t.compose::<false, true>(&r); (t, Some(r)) }));
+            }
         }
         "compose_prune" => {
             let r = rhs.clone().unwrap();
             emit("", guarded(|| { let mut t = lhs.clone(); t.compose::<true, false>(&r); (t, Some(r)) }));
+            if id % 4 == 0 {
+                let r = rhs.clone().unwrap();
+                emit("v", guarded(|| { let mut t = lhs.clone(); t.compose::<true, true>(&r); (t, Some(r)) }));
+            }
         }
         "apply_func" => {
             let a = aff_from(&sc["aff"]);
